@@ -6,6 +6,7 @@ From DBG Require Interop.DispatchBBHash Interop.DispatchGraph.
 From DBG Require Interop.DispatchAscii.
 From DBG Require Interop.DispatchScan.
 From DBG Require Interop.DispatchFilter.
+From DBG Require Interop.DispatchRecomp.
 Import ListNotations.
 Open Scope N_scope.
 
@@ -130,6 +131,7 @@ Definition prefix2 (op : string) : string := substring 0 2 op.
 Definition dispatchers : list (string -> val -> option val) :=
   [ d_kmer; d_spec_kmer; d_exts; run_table generic_spec_ops; d_seq;
     DispatchGraph.d_graph;
+    DispatchRecomp.d_recomp;
     DispatchAscii.d_ascii;
     DispatchBBHash.d_bbhash;
     (fun op v => if DispatchScan.is_scan_op op then DispatchScan.d_scan op v else None);
